@@ -103,6 +103,7 @@ func rateStrings(maxLen int) hlib.Suite {
 			var err error
 			panicked, pv := hlib.Catch(func() { n, unit, err = rate.ParseRate(s) })
 			input := fmt.Sprintf("%q", s)
+			r.SampleCase(input)
 			if panicked {
 				r.Fail("C14/rate-string-panics", shape(s), fmt.Sprintf("ParseRate(%q) panics: %v", s, pv), input)
 				return true
@@ -171,6 +172,7 @@ func stagesStrings(maxLen int) hlib.Suite {
 			}
 			r.Eval()
 			input := fmt.Sprintf("%q", s)
+			r.SampleCase(input)
 			panicked, pv := hlib.Catch(func() {
 				st, err := staged.ParseStages(s)
 				if err != nil {
@@ -258,6 +260,7 @@ func cliSuite(full bool) hlib.Suite {
 			r.Eval()
 			args := append([]string{c.mode, "s", "-v"}, c.flags...)
 			input := "f1 run " + strings.Join(args, " ")
+			r.SampleCase(input)
 			res := hlib.RunCLI(args, 40*time.Second, func(t *f1testing.T) {
 				if c.mode == "users" {
 					vtime.Sleep(10 * time.Millisecond)
@@ -420,6 +423,7 @@ func yamlSuite(full bool) hlib.Suite {
 						}
 						doc := buildYAML(mode, stage, def, lv)
 						input := fmt.Sprintf("mode=%s fields=%v limits=%s bad=%v\n%s", mode, where, lv, bv, doc)
+						r.SampleCase(input)
 						key := fmt.Sprintf("%s/%s/%s", mode, absentKey(fs, where, bv.fi, bv.val), lv)
 						r.Eval()
 						checkYAML(r, dir, doc, input, key)
